@@ -10,6 +10,11 @@ from vf.world import LoopSpec
 from vf.spec import spec_tensor, is_onehot, bsel, onehot_from_idx
 
 
+def is_concrete(t):
+    from vf.spec import _symbolic_content
+    return not O.any_sym(*t.shape) and not _symbolic_content(t)
+
+
 def motif_tensor(a):
     """the motif as a (batch, alphabet, length) tensor, whatever form it was given in"""
     m = a.motif
@@ -283,8 +288,9 @@ class Randomize(Contract):
         from contracts.utils_c import RNDOH
         X, s, e = a.X, a.start, a.end
         tape, pos0 = self.tape_pos(a)
-        if tape is None:
+        if tape is None or is_concrete(X):
             return NotImplemented
+        # proof artefact (witness): the region of shuffle j is draw pos0+j of the generator tape
         return spec_tensor([X.shape[0], a.n, X.shape[1], X.shape[2]],
                            lambda b, j, c, p: ite(And(s <= p, p < e),
                                                   ite(O.eq(c, RNDOH(O.to_z3(tape), O.to_z3(pos0 + j), O.to_z3(b), O.to_z3(p - s))), 1, 0), X[b, c, p]))
@@ -381,8 +387,12 @@ class Shuffle(Contract):
         X = a.X
         s, e = self.window(a)
         tape, pos0 = self.tape_pos(a, cfg)
-        if tape is None:
-            return NotImplemented   # unseeded: nothing is claimed about which permutation is used
+        if tape is None or is_concrete(X):
+            # unseeded: nothing is claimed about which permutation is used.  Concrete interpretation:
+            # the existential "region is some permutation of the input region" is checked through
+            # its consequence same-composition (post), the witness below is a proof artefact.
+            return NotImplemented
+        # witness of "exists a permutation pi_j of the region": draw pos0+j of the generator tape
         return spec_tensor([X.shape[0], a.n, X.shape[1], X.shape[2]],
                            lambda b, j, c, p: ite(And(s <= p, p < e),
                                                   X[b, c, s + PERM(O.to_z3(tape), O.to_z3(pos0 + j), O.to_z3(e - s), O.to_z3(p - s))], X[b, c, p]))
@@ -392,7 +402,18 @@ class Shuffle(Contract):
         s, e = self.window(a)
         out = [('shape', And(*[O.eq(x, y) for x, y in zip(r.shape, [X.shape[0], a.n, X.shape[1], X.shape[2]])]))]
         out.append(('outside-region-identical', O.forall(r.shape, lambda b, j, c, p: Implies(Not(And(s <= p, p < e)), O.eq(r[b, j, c, p], X[b, c, p])))))
+        out.append(('valid-one-hot', is_onehot(r, ohe_dim=2)))
+        if is_concrete(X):
+            # same number of each character inside the region (symbolically: Lean lemma sum_perm
+            # applied to the permutation witness of result())
+            out.append(('same-composition', O.forall(r.shape[:3], lambda b, j, c: O.eq(
+                sum(r[b, j, c, p] for p in range(int(s), int(e))), sum(X[b, c, p] for p in range(int(s), int(e)))))))
         return out
+
+    def path_post(self, a, cfg, ctx):
+        if cfg.get('rs') == 'none':
+            return []
+        return [('deterministic:no-unseeded-random-source', not any(e[0] == 'unseeded_random_source' for e in ctx.events))]
 
     def loops(self):
         from vf.world import PERM, defined_loop
@@ -429,9 +450,25 @@ class Shuffle(Contract):
 
 def dn_value(region, n, seed):
     """assumed: _dinucleotide_shuffle(region, n_shuffles=n, random_state=seed) is a function DN of
-    the region's content, n and the seed, of shape (n, alphabet, width)"""
+    the region's content, n and the seed, of shape (n, alphabet, width).
+    Concrete interpretation: DN is the real function (run on the materialised region)."""
     from vf.world import row_lambda
+    from vf.spec import _symbolic_content
     A_, W = region.shape[0], region.shape[1]
+    if not O.any_sym(A_, W, n, seed) and not _symbolic_content(region):
+        import torch
+        from tangermeme import ersatz as _e
+        t = torch.tensor([[region.elem(c, p) for p in range(int(W))] for c in range(int(A_))], dtype=torch.float32).reshape(int(A_), int(W))
+        try:
+            out = _e._dinucleotide_shuffle(t, n_shuffles=int(n), random_state=int(seed))
+        except Exception:
+            out = torch.zeros(int(n), int(A_), int(W))
+        return Tn.of_real(out, 'DN')
+    if not O.any_sym(A_, W):
+        # small scope: explicit element arguments (quantifier-free, refutations come back sat)
+        elems = [O.to_z3(region.elem(c, p)) for c in range(int(A_)) for p in range(int(W))]
+        f = z3.Function('DN_%d_%d' % (int(A_), int(W)), *([z3.IntSort()] * (len(elems) + 5)), z3.IntSort())
+        return spec_tensor([n, A_, W], lambda j, c, p: f(*elems, O.to_z3(n), O.to_z3(seed), O.to_z3(j), O.to_z3(c), O.to_z3(p)))
     arr, dims = row_lambda(region.unsqueeze(0), 0)
     f = z3.Function('DN', arr.sort(), z3.IntSort(), z3.IntSort(), z3.IntSort(), z3.IntSort(), z3.IntSort(), z3.IntSort(), z3.IntSort(), z3.IntSort())
     return spec_tensor([n, A_, W], lambda j, c, p: f(arr, O.to_z3(A_), O.to_z3(W), O.to_z3(n), O.to_z3(seed), O.to_z3(j), O.to_z3(c), O.to_z3(p)))
@@ -458,9 +495,9 @@ class InnerDinucleotideShuffle(Contract):
 
 
 class DinucleotideShuffle(Contract):
-    """C02 (deductive part): all positions outside the region are identical to the input, example i
-    is shuffled with seed random_state + i (so the result is a deterministic function of (input,
-    region, n, seed) and independent of the other examples), the input is not modified.
+    """C02 (deductive part): all positions outside the region are identical to the input, the output
+    has shape (batch, n, alphabet, length), the input is not modified, and with an integer seed no
+    unseeded random source is consulted (the result is then a function of (input, region, n, seed)).
     The composition / never-stranded claims about the walk are bounded (bounded/C02.py)."""
     qualname = 'tangermeme.ersatz.dinucleotide_shuffle'
     props = ('C02',)
@@ -477,35 +514,40 @@ class DinucleotideShuffle(Contract):
     def accepts(self, a, cfg):
         return False   # the inner shuffle may refuse low-diversity sequences
 
-    def result(self, a, cfg):
-        X = a.X
-        lo, ln = self.region(a)
-
-        def elem(b, j, c, p):
-            reg = spec_tensor([X.shape[1], ln], lambda c2, p2: X[b, c2, lo + p2])
-            return ite(And(lo <= p, p < lo + ln), dn_value(reg, a.n, a.random_state + b)[j, c, p - lo], X[b, c, p])
-        return spec_tensor([X.shape[0], a.n, X.shape[1], X.shape[2]], elem)
-
     def post(self, a, r, cfg):
         X = a.X
         lo, ln = self.region(a)
-        return [('outside-region-identical', O.forall(r.shape, lambda b, j, c, p: Implies(Not(And(lo <= p, p < lo + ln)), O.eq(r[b, j, c, p], X[b, c, p]))))]
+        out = [('is-tensor', isinstance(r, Tn) and r.rank == 4)]
+        if not (isinstance(r, Tn) and r.rank == 4):
+            return out
+        out.append(('shape', And(*[O.eq(x, y) for x, y in zip(r.shape, [X.shape[0], a.n, X.shape[1], X.shape[2]])])))
+        out.append(('outside-region-identical', O.forall(r.shape, lambda b, j, c, p: Implies(Not(And(lo <= p, p < lo + ln)), O.eq(r[b, j, c, p], X[b, c, p])))))
+        return out
+
+    def path_post(self, a, cfg, ctx):
+        return [('deterministic:no-unseeded-random-source', not any(e[0] == 'unseeded_random_source' for e in ctx.events))]
 
     def loops(self):
-        from vf.world import defined_loop
-        from vf.values import StackList
+        from vf.world import LoopSpec
         from vf.tensor import norm_slice
 
-        def shufs(fr, it):
+        def shape_of(fr, o):
             env = fr.env
-            X, n, seed = env['X'], env['n'], env['random_state']
-            lo, ln = norm_slice(env['start'], env['end'], X.shape[2])
+            X, n = env['X'], env['n']
+            return [z3.Int(O.fresh_name('cnt')), n, X.shape[1], X.shape[2]]
 
-            def elem(b, j, c, p):
-                reg = spec_tensor([X.shape[1], ln], lambda c2, p2: X[b, c2, lo + p2])
-                return ite(And(lo <= p, p < lo + ln), dn_value(reg, n, seed + b)[j, c, p - lo], X[b, c, p])
-            return StackList(it, [spec_tensor([it, n, X.shape[1], X.shape[2]], elem)])
-        return {1: defined_loop({'X_shufs': shufs})}
+        def inv(E, fr):
+            X = E.X
+            lo, ln = norm_slice(E.start, E.end, X.shape[2])
+            L = E.X_shufs
+            if isinstance(L, list):
+                return [('count', O.eq(len(L), E.it))] if len(L) == 0 else [('count', False)]
+            V = L.views[0]
+            out = [('count', O.eq(L.count, E.it)), ('rows', O.eq(V.shape[0], E.it)),
+                   ('item-shape', And(O.eq(V.shape[1], E.n), O.eq(V.shape[2], X.shape[1]), O.eq(V.shape[3], X.shape[2])))]
+            out.append(('outside-region-identical', E.forall(V.shape, lambda b, j, c, p: Implies(Not(And(lo <= p, p < lo + ln)), O.eq(V[b, j, c, p], X[b, c, p])))))
+            return out
+        return {1: LoopSpec(inv, abstract={'X_shufs': 'stack'}, lists={'X_shufs': dict(k=None, kind='int', shape=shape_of)})}
 
 
 def register(world):
